@@ -30,7 +30,7 @@ ANCHORS = [
 ]
 REQUIRED = ["exhaustive_sequences", "random_ops", "json_round_trips", "op:get_event", "op:get_current_events",
             "op:add_events_bulk", "op:constructor_events", "ties_seen", "sim_runs_monitored", "sim_json_round_trips",
-            "queue_monitor:get_current_events", "queue_monitor:add", "queue_monitor:get_last_timestamp", "suite:queue_monitor:get_event"]
+            "bulk_queues", "bulk_all_due_retrievals", "queue_monitor:get_current_events", "queue_monitor:add", "queue_monitor:get_last_timestamp", "suite:queue_monitor:get_event"]
 BUDGET_S = {"quick": 240, "thorough": 3000}
 EXHAUSTIVE = {"quick": "all sequences of length <= 5 over the 13-operation alphabet, get_event on an empty queue excluded (count: monitor_events.exhaustive_sequences)",
               "thorough": "all sequences of length <= 6 over the 13-operation alphabet, get_event on an empty queue excluded (count: monitor_events.exhaustive_sequences)"}
@@ -54,6 +54,10 @@ def cases(seed, tier):
         out.append({"kind": "sim", "desc": gen.scenario(rng, sched=rng.choice(["scripted", "uncontrolled", "sorted"]),
                                                         kinds=("EVSE", "FR"), noise_p=0.0), "json_at": rng.choice([None, 1, 3, 6])})
     out.append({"kind": "suite"})
+    # large pending sets (hundreds of events of mixed kinds, many or all of them due at once)
+    nb = 24 if tier == "quick" else 600
+    out += [{"kind": "bulk", "seed": rng.randrange(1 << 40), "n": rng.choice([128, 129, 200, 257, 400, 700]),
+             "all_due": rng.random() < 0.6} for _ in range(nb)]
     return out
 
 
@@ -342,7 +346,62 @@ def _run_sim(case, obs):
     obs.sample = {"kind": "sim", "queue_calls": obs.evals, "periods": sim.iteration}
 
 
+def _run_bulk(case, obs):
+    """Hundreds of pending events, mixed kinds, few distinct timestamps; retrieved in one go, in halves, or one by one."""
+    c = ctx()
+    rng = random.Random(case["seed"])
+    n = case["n"]
+    nts = rng.choice([1, 2, 5, 12])
+    evs = [c.make(rng.choice("UPR"), rng.randrange(nts), rng.randrange(12)) for _ in range(n)]
+    m = Model()
+    hist = []
+    if rng.random() < 0.5:
+        q = c.EventQueue(list(evs))
+        hist.append(("ctor", n))
+    else:
+        q = c.EventQueue()
+        half = n // 2
+        q.add_events(evs[:half])
+        for e in evs[half:]:
+            q.add_event(e)
+        hist.append(("add_events+add_event", n))
+    for e in evs:
+        m.add(e)
+    obs.ev("bulk_queues")
+    if not check_queries(q, m, obs, hist):
+        return
+    if rng.random() < 0.3:
+        import json as _json
+        q = c.EventQueue.from_json(q.to_json())
+        hist.append(("json",))
+        obs.ev("json_round_trips")
+    if case["all_due"]:
+        t = nts + rng.choice([0, 3])
+        hist.append(("cur", t))
+        if not do_cur(q, m, t, obs, hist) or not check_queries(q, m, obs, hist):
+            return
+        obs.ev("bulk_all_due_retrievals")
+    else:
+        for t in sorted(rng.sample(range(nts + 1), min(nts + 1, rng.randint(1, 4)))):
+            hist.append(("cur", t))
+            if not do_cur(q, m, t, obs, hist) or not check_queries(q, m, obs, hist):
+                return
+            if rng.random() < 0.5:
+                e = c.make(rng.choice("UPR"), rng.randrange(nts + 2), rng.randrange(12))
+                q.add_event(e)
+                m.add(e)
+        while m.items and rng.random() < 0.98:
+            hist.append(("get",))
+            if not do_get(q, m, obs, hist):
+                return
+    obs.evals = n
+    obs.nontrivial()
+    obs.sample = {"kind": "bulk", "events": n, "timestamps": nts, "all_due": case["all_due"]}
+
+
 def run_case(case, obs):
+    if case["kind"] == "bulk":
+        return _run_bulk(case, obs)
     if case["kind"] == "sim":
         return _run_sim(case, obs)
     if case["kind"] == "suite":
